@@ -10,58 +10,73 @@ Quantifier: all transaction bodies — every type, arbitrary and structurally va
 JSON governance payloads (missing, extra, wrongly typed or null arguments, huge numbers), arbitrary
 lengths of account, recipient, amount and price fields, against arbitrary sender states.
 
-Model: `Aergo.Model.Json` (encoding/json into CallInfo, from raw bytes) and `Aergo.Model.Admit`
-(`poolAdmit` = mempool verifyTx + validateTx, `execute` = chain executeTx, both with an explicit
-`panic site` outcome).  Every theorem below is for *all* environments `e : Env`: all payload byte
-strings, all field contents, all results of the library decoders, all sender/contract records.
+Model: `Aergo.Model.Json` (encoding/json into CallInfo, from raw bytes) and `Aergo.Model.Admit`:
+`poolAdmit` = mempool verifyTx + validateTx for EVERY transaction type (sender-state check with the fee
+arithmetic of `ValidateMaxFee`, the recipient checks of NORMAL/TRANSFER/CALL/REDEPLOY, DEPLOY, MULTICALL, the
+fee-delegation round trip to the chain service, the three governance validators), `execute` = chain executeTx
+(governance execution incl. the parameter-vote tally: `SubVote`/`AddVote`, the tally sort `VoteList.Less`,
+`Sync`'s `Votes[0]`, `threshold`'s division; for the other types the divisions by the voted gas price), both with
+an explicit `panic site` outcome.  Every PARTIAL operation of the model (`idx`, `sliceFrom`, `asStr`, `divNat`,
+`divInt`, the typed-reply assertion) names its site; a theorem `Safe u x` says "x panics only at a site whose
+guard is missing (∈ u)", so each theorem below is the statement "every partial operation on the path is guarded
+by what validation (or a named state invariant) established".  All theorems are for *all* environments
+`e : Env`: all payload bytes, all field contents, all results of the library decoders, all sender / contract
+records, all tallies, every map iteration order (the tally is an arbitrary list), every gas price ≠ 0.
 
-History.  The first version of this check found eight ways to crash a node on the then-pinned
-tree.  Six guards were added to /repo (fix commits b11917e3, 2586c6fa, 9f771520); the model's
-`pinned` list lost those six sites, the harness treats any panic there as a fresh violation.
+History.  Round 1 found eight crashes (six repaired: b11917e3, 2586c6fa, 9f771520).  Round 3 (this file)
+found `threshold`'s division by zero reachable once STAKINGMIN is voted below 100 aer (repaired f9db0000) and a
+panic of the tally sort on a 39-character parameter candidate (repaired 3f9132cd); both are sites of the model
+(`rThreshDiv`, `tLessSlice`) with their repair as a guard, `unfixed` lists the tree before the repairs.
 
-Status on the current tree:
-
- * FIRST CLAUSE (admission never panics): holds at FULL strength — `validate_total`.
- * SECOND CLAUSE (an admitted transaction executes without a crash): still VIOLATED at two
-   execution-only sites, recorded as known findings (a guard would change which historical voteBP
-   transactions validate and needs a hard-fork gate): `rAddSlice` (BP vote for a peer id that is not
-   39 bytes) and its consequence `rSubNil`.  Witnesses `w6`, `w7`; `execute_total_violated`;
-   `execute_total_partial` (a panic can only be at one of these two); `execute_total_repaired`
-   (with the one remaining guard, and the state invariant it establishes, no panic at all).
- * `admit_panics_only_at_unguarded`, `execute_panics_only_at_unguarded` — the general form, for every
-   list `u` of unguarded sites; `admit_reaches_only_admission_sites` — the syntactic complement.
-   The repairs are modelled as *added checks* (`fixGuard`); the dangerous operations below them keep
-   their panic semantics, so totality is proved about the repaired code, not defined.
- * termination: every model function is a total Lean function (structural recursion on lists, or on
-   an explicit fuel ≥ 2·len+4 in the JSON parser), so "always terminates" holds by construction.
- * `assert_sites_known` … — tie T: the syntactic inventory regenerated from the source on every
-   run equals the table the model was written against.
+Status on the current tree (`pinned` = two known execution-only sites):
+ * FIRST CLAUSE (admission never panics), every transaction type: FULL — `validate_total`.
+ * SECOND CLAUSE: still violated at `rAddSlice` / `rSubNil` (known findings; hard-fork gate needed):
+   `execute_total_violated`, `execute_total_partial`, `execute_total_repaired`; for every type but GOVERNANCE it
+   holds in full: `execute_total_other_types`.
+ * `less_total`, `sort_total`, `threshold_total`: the two round-3 repairs are sufficient for all inputs.
+ * `gasPrice_nonzero_all_histories`: the invariant the fee divisions rely on, over all histories of votes.
+ * tie T: `every_open_op_accounted`, `every_site_anchored`, `dispatch_known`, `auto_rules_known`.
 -/
 import Aergo.Lemmas.Admit
 import Aergo.Lemmas.AdmitReach
-import Aergo.Gen.AssertSites
+import Aergo.Gen.PartialOps
 
 namespace Aergo.Props.C14
 open Aergo.Json Aergo.Admit
 
-/-! ### Tie T: the inventory of panic-capable syntax -/
+/-! ### Tie T: the regenerated inventory of partial operations -/
+
+/-- Number of occurrences the model's table records for a key. -/
+def tableCount (k : String) : Option Nat := ((openOps ++ guardedInSource).find? (·.1 == k)).map (·.2.1)
 
 set_option maxRecDepth 100000 in
-/-- Every non-comma-ok type assertion, index expression, slice expression and explicit `panic(` that the
-extractor finds in the scanned functions of the *current* source is an entry of the model's site
-table (same keys, same order).  A new unchecked assertion or index expression breaks this theorem
-before any payload is found. -/
-theorem assert_sites_known : knownSites.map (·.1) = Aergo.Gen.AssertSites.sites := by rfl
+/-- Every partial operation (index, slice, unchecked assertion, explicit panic, division, nil-able arithmetic
+argument, map write) in a function REACHABLE from the admission / execution entry points of the current source,
+which the extractor cannot discharge inside its own function, has an entry in the model's table with the same
+number of occurrences — as a trap carried by the theorems below, or with its stated reason.  A new unguarded
+operation anywhere on the path (also in a new helper, a new command, a callee) breaks this theorem. -/
+theorem every_open_op_accounted :
+    Aergo.Gen.PartialOps.open_.all (fun kn => tableCount kn.1 == some kn.2) = true := by
+  decide +kernel
+
+/-- The syntactic discharge rules the extractor used are the documented ones. -/
+theorem auto_rules_known :
+    Aergo.Gen.PartialOps.auto.all (fun a => ["map", "maplocal", "fullslice", "lenguard", "loopbound", "constdiv", "nilinit",
+      "stringer", "sortidx"].contains a.2.1) = true := by
+  decide +kernel
 
 set_option maxRecDepth 100000 in
-/-- The functions scanned are the ones the model transcribes (none renamed, none missing). -/
-theorem scanned_functions_known : knownScanned = Aergo.Gen.AssertSites.scanned := by rfl
+/-- Every dispatch on a command name, system operation, transaction type or recipient in the reachable code has
+exactly the case labels the model branches on: a new command or type is noticed before any payload is found. -/
+theorem dispatch_known : Aergo.Gen.PartialOps.dispatch.all (fun d => knownDispatch.contains d) = true := by
+  decide +kernel
 
 /-- `allSites` lists every constructor of `Site`. -/
 theorem allSites_complete (s : Site) : s ∈ allSites := by cases s <;> decide
 
-/-- Every trap of the model is anchored to at least one source expression of the inventory. -/
-theorem every_trap_anchored : allSites.all (fun s => knownSites.any (fun k => k.2 == .trap s)) = true := by
+/-- Every trap of the model is anchored to a source expression of the table. -/
+theorem every_site_anchored :
+    allSites.all (fun s => (openOps ++ guardedInSource).any (fun k => match k.2.2 with | .trap ss => ss.contains s | _ => false)) = true := by
   decide +kernel
 
 /-- The sites that are unguarded on the pinned tree are traps of the model (hence anchored). -/
@@ -69,34 +84,36 @@ theorem pinned_are_sites : pinned.all (fun s => allSites.contains s) = true := b
 
 /-! ### State invariants the theorems assume (each with the site it protects) -/
 
-/-- What the theorems assume about the state and the Go runtime:
- * `admins`  — the stored admin list can be read back in 33-byte steps (site `gAdmins`); since fix
-   2586c6fa only 33-byte addresses are ever appended, so every reachable state satisfies it
-   (argued, not machine-checked: the only writer is `setAdmins(append(admins, address))`);
- * `rpc`     — stored RPCPERMISSIONS values contain a `:` (`cRpcSplit`; `checkRPCPermissions` accepts
-   nothing else);
- * `cap`     — len ≤ cap for the candidate buffer (`rAddSlice`; a fact of Go slices);
- * `votes`   — the sender's old vote records only name candidates present in the tally (`rSubNil`).
-   On the current tree `votes` can still be broken by an admitted transaction (a BP vote for a 34-byte
-   peer id): that is the known finding C14-subVote-corrupt-old-vote; the theorems about the pinned
-   tree therefore do not assume it. -/
+/-- What the theorems assume about the state, the Go runtime and the actor system:
+ * `admins`   — the stored admin list can be read back in 33-byte steps (`gAdmins`; only 33-byte addresses are
+   appended since fix 2586c6fa: argued);
+ * `rpc`      — stored RPCPERMISSIONS values contain a `:` (`cRpcSplit`);
+ * `cap`      — len ≤ cap for the candidate buffer (`rAddSlice`; a fact of Go slices);
+ * `votes`    — the sender's old vote records only name candidates present in the tally (`rSubNil`); can still be
+   broken by an admitted transaction on the current tree (known finding), so the pinned-tree theorems do not use it;
+ * `daoVotes` — the sender's old parameter-vote record names a candidate (`rSyncTop` on unstake);
+ * `gas`      — the voted gas price is not zero (`fCalcGas`; `gasPrice_nonzero_all_histories`);
+ * `fd`       — the chain service answers fee-delegation requests with its typed reply or not at all (`pFdRsp`). -/
 structure StateOk (e : Env) : Prop where
   admins : e.adminsReadable = true
   votes : OldVotesOk e
+  daoVotes : OldDaoVotesOk e
   rpc : RpcOk e
   cap : CapOk e
+  gas : GasPriceOk e
+  fd : FdReplyOk e
 
 /-! ### General form -/
 
-/-- Pool admission (Validate, signature, sender state, stateful governance validation) of any
-transaction panics only at a site whose guard is missing. -/
+/-- Pool admission (Validate, signature, sender state incl. the maximum-fee arithmetic, the per-type checks, the
+stateful governance validation) of any transaction of any type panics only at a site whose guard is missing. -/
 theorem admit_panics_only_at_unguarded (u : List Site) (e : Env)
-    (hA : .gAdmins ∈ u ∨ e.adminsReadable = true) (hR : RpcOk e) (s : Site) :
+    (hA : .gAdmins ∈ u ∨ e.adminsReadable = true) (hR : RpcOk e)
+    (hG : .fCalcGas ∈ u ∨ GasPriceOk e) (hF : .pFdRsp ∈ u ∨ FdReplyOk e) (s : Site) :
     poolAdmit u e = .panic s → s ∈ u :=
-  safe_poolAdmit u e hA hR s
+  safe_poolAdmit u e hA hR hG hF s
 
-/-- Whatever the guards, pool admission only ever traps at an admission site: the execution-only traps
-(`newVoteCmd`, `AddVote`, `SubVote`, `ExecuteNameTx`, `ExecuteEnterpriseTx`) do not occur in it. -/
+/-- Whatever the guards, pool admission only ever traps at an admission site: the execution-only traps do not occur in it. -/
 theorem admit_reaches_only_admission_sites (u : List Site) (e : Env) (s : Site) :
     poolAdmit u e = .panic s → s ∈ admissionSites :=
   reach_poolAdmit u e s
@@ -104,18 +121,18 @@ theorem admit_reaches_only_admission_sites (u : List Site) (e : Env) (s : Site) 
 /-- Block execution of any transaction (admitted or not) panics only at a site whose guard is missing. -/
 theorem execute_panics_only_at_unguarded (u : List Site) (e : Env)
     (hA : .gAdmins ∈ u ∨ e.adminsReadable = true) (hR : RpcOk e) (hV : .rSubNil ∈ u ∨ OldVotesOk e)
-    (hC : CapOk e) (s : Site) :
+    (hD : .rSyncTop ∈ u ∨ OldDaoVotesOk e) (hC : CapOk e) (hG : .fCalcGas ∈ u ∨ GasPriceOk e) (s : Site) :
     execute u e = .panic s → s ∈ u :=
-  safe_execute u e hA hR hV hC s
+  safe_execute u e hA hR hV hD hC hG s
 
 /-! ### The current tree (`pinned` = the two known execution sites) -/
 
-/-- FULL STRENGTH, first clause of C14: on the current tree pool admission of any transaction —
-any payload bytes, any field contents, any sender state — never panics. -/
-theorem validate_total (e : Env) (hA : e.adminsReadable = true) (hR : RpcOk e) (s : Site) :
-    poolAdmit pinned e ≠ .panic s := by
+/-- FULL STRENGTH, first clause of C14: on the current tree pool admission of any transaction — any type, any
+payload bytes, any field contents, any sender state, any non-zero gas price — never panics. -/
+theorem validate_total (e : Env) (hA : e.adminsReadable = true) (hR : RpcOk e) (hG : GasPriceOk e) (hF : FdReplyOk e)
+    (s : Site) : poolAdmit pinned e ≠ .panic s := by
   intro hp
-  have h1 := admit_panics_only_at_unguarded pinned e (.inr hA) hR s hp
+  have h1 := admit_panics_only_at_unguarded pinned e (.inr hA) hR (.inr hG) (.inr hF) s hp
   have h2 := admit_reaches_only_admission_sites pinned e s hp
   simp only [pinned, List.mem_cons, List.not_mem_nil, or_false] at h1
   rcases h1 with h1 | h1 <;> subst h1 <;> exact absurd h2 (by decide)
@@ -126,23 +143,135 @@ theorem validate_total (e : Env) (hA : e.adminsReadable = true) (hR : RpcOk e) (
 
 /-- PARTIAL, second clause: executing any transaction (in particular any admitted one) panics at most
 at one of the two known sites.  `OldVotesOk` is *not* assumed (it is what `rSubNil` is about). -/
-theorem execute_total_partial (e : Env) (hA : e.adminsReadable = true) (hR : RpcOk e) (hC : CapOk e) (s : Site)
-    (h : execute pinned e = .panic s) : s = .rAddSlice ∨ s = .rSubNil := by
-  have := execute_panics_only_at_unguarded pinned e (.inr hA) hR (.inl (by decide)) hC s h
+theorem execute_total_partial (e : Env) (hA : e.adminsReadable = true) (hR : RpcOk e) (hD : OldDaoVotesOk e) (hC : CapOk e)
+    (hG : GasPriceOk e) (s : Site) (h : execute pinned e = .panic s) : s = .rAddSlice ∨ s = .rSubNil := by
+  have := execute_panics_only_at_unguarded pinned e (.inr hA) hR (.inl (by decide)) (.inr hD) hC (.inr hG) s h
   simpa [pinned] using this
 
-/-- With the one remaining guard (BP candidates must be 39 bytes; `u = []`) and the invariant on old
-vote records it establishes, execution of any transaction never panics: the full second clause. -/
+/-- FULL, second clause for every type but GOVERNANCE (NORMAL, TRANSFER, CALL, DEPLOY, REDEPLOY, MULTICALL,
+FEEDELEGATION): up to the VM (not modelled) execution never panics when the gas price is not zero. -/
+theorem execute_total_other_types (e : Env) (ht : e.tx.type ≠ 1) (hG : GasPriceOk e) (s : Site) :
+    execute pinned e ≠ .panic s := by
+  intro hp
+  have hne : ¬ (e.tx.type == 1) = true := by simpa using ht
+  have h1 : Safe pinned (execute pinned e) := by
+    unfold execute
+    apply safe_bind (safe_typesValidate _ _); intro _ _
+    apply safe_bind (safe_senderState _ _ _ (.inr hG)); intro _ _
+    rw [if_neg hne]
+    exact safe_execOther _ _ (.inr hG)
+  have h2 : Safe admissionSites (execute pinned e) := by
+    unfold execute
+    apply safe_bind (reach_typesValidate _ _); intro _ _
+    apply safe_bind (reach_senderState _ _); intro _ _
+    rw [if_neg hne]
+    exact safe_execOther _ _ (.inl (by decide))
+  have m1 := h1 s hp
+  have m2 := h2 s hp
+  simp only [pinned, List.mem_cons, List.not_mem_nil, or_false] at m1
+  rcases m1 with m1 | m1 <;> subst m1 <;> exact absurd m2 (by decide)
+
+/-- With the one remaining guard (BP candidates must be 39 bytes; `u = []`) and the invariants, execution of any
+transaction never panics: the full second clause. -/
 theorem execute_total_repaired (e : Env) (h : StateOk e) (s : Site) : execute [] e ≠ .panic s := by
   intro hp
-  have := execute_panics_only_at_unguarded [] e (.inr h.admins) h.rpc (.inr h.votes) h.cap s hp
+  have := execute_panics_only_at_unguarded [] e (.inr h.admins) h.rpc (.inr h.votes) (.inr h.daoVotes) h.cap (.inr h.gas) s hp
   cases this
 
 /-- … and admission stays total with that guard. -/
 theorem validate_total_repaired (e : Env) (h : StateOk e) (s : Site) : poolAdmit [] e ≠ .panic s := by
   intro hp
-  have := admit_panics_only_at_unguarded [] e (.inr h.admins) h.rpc s hp
+  have := admit_panics_only_at_unguarded [] e (.inr h.admins) h.rpc (.inr h.gas) (.inr h.fd) s hp
   cases this
+
+/-! ### The round-3 repairs are sufficient for all inputs -/
+
+/-- `VoteList.Less` (since 3f9132cd) is total on two entries with candidates of ARBITRARY lengths and amounts. -/
+theorem less_total (a b : VoteEnt) (s : Site) : voteLess pinned a b ≠ .panic s := by
+  intro hp
+  have h1 := safe_voteLess pinned a b s hp
+  have h2 := only_voteLess pinned a b s hp
+  simp only [List.mem_cons, List.not_mem_nil, or_false] at h2
+  subst h2
+  simp [pinned] at h1
+
+/-- The tally sort is total on every list of entries — every tally, every map iteration order. -/
+theorem sort_total (l : List VoteEnt) (s : Site) : sortDesc pinned l ≠ .panic s := by
+  intro hp
+  have h1 := safe_sortDesc pinned l s hp
+  have h2 := only_sortDesc pinned l s hp
+  simp only [List.mem_cons, List.not_mem_nil, or_false] at h2
+  subst h2
+  simp [pinned] at h1
+
+/-- `threshold` (since f9db0000) never divides by zero: for every top tally and staking total. -/
+theorem threshold_total (power total : Nat) (s : Site) : threshold pinned power total ≠ .panic s := by
+  intro hp
+  have h1 := safe_threshold pinned power total s hp
+  have h2 := only_threshold pinned power total s hp
+  simp only [List.mem_cons, List.not_mem_nil, or_false] at h2
+  subst h2
+  simp [pinned] at h1
+
+/-! ### The gas price over all histories of parameter votes -/
+
+/-- `validateById` refuses the candidate 0 for every issue. -/
+theorem validated_candidate_nonzero (e : Env) (issue : Nat) (c : Int) (h : validateById e issue c = true) : c ≠ 0 := by
+  intro hc
+  subst hc
+  simp [validateById] at h
+
+/-- The parameter state as far as one issue is concerned: the value in force and the candidates of its tally. -/
+structure ParamSt where
+  value : Int
+  cands : List Int
+
+/-- What an admitted parameter vote can do to it: add a (validated) candidate to the tally; and when `Sync` finds
+the threshold reached, make SOME candidate of the tally — whichever sorts first — the value in force. -/
+inductive ParamStep
+  | vote (c : Int)
+  | win (i : Nat)
+
+def ParamStep.valid (e : Env) (issue : Nat) : ParamStep → Prop
+  | .vote c => validateById e issue c = true
+  | .win _ => True
+
+def ParamSt.step (s : ParamSt) : ParamStep → ParamSt
+  | .vote c => { s with cands := c :: s.cands }
+  | .win i => match s.cands[i]? with
+    | some c => { s with value := c }
+    | none => s
+
+/-- Over ALL histories of admitted votes and threshold crossings, in any order: starting from a non-zero value (the
+defaults: 50 gaer, …) and a tally of validated candidates, the value in force is never zero — the invariant
+`GasPriceOk` that the fee divisions (`fCalcGas`) need is preserved by everything admission lets through. -/
+theorem gasPrice_nonzero_all_histories (e : Env) (issue : Nat) (s0 : ParamSt) (h0 : s0.value ≠ 0) (hc : ∀ c ∈ s0.cands, c ≠ 0)
+    (steps : List ParamStep) (hs : ∀ st ∈ steps, st.valid e issue) : (steps.foldl ParamSt.step s0).value ≠ 0 := by
+  induction steps generalizing s0 with
+  | nil => exact h0
+  | cons st r ih =>
+    simp only [List.foldl_cons]
+    apply ih
+    · cases st with
+      | vote c => exact h0
+      | win i =>
+        simp only [ParamSt.step]
+        split
+        · rename_i c hci
+          exact hc c (List.mem_of_getElem? hci)
+        · exact h0
+    · cases st with
+      | vote c =>
+        intro c' hc'
+        simp only [ParamSt.step, List.mem_cons] at hc'
+        rcases hc' with rfl | hc'
+        · exact validated_candidate_nonzero e issue _ (hs (.vote _) (by simp))
+        · exact hc c' hc'
+      | win i =>
+        simp only [ParamSt.step]
+        split <;> exact hc
+    · intro st' hst'
+      exact hs st' (by simp [hst'])
 
 /-! ### Witnesses (tests by `decide` on concrete inputs; the same inputs were run on the real code,
 see notes/C14.md) -/
@@ -176,15 +305,22 @@ def w6 : Env := { wEnv aergoSystem (str% "{\"Name\":\"v1voteBP\",\"Args\":[\"5dq
 /-- a second BP vote by an account whose first vote named a 34-byte peer id (stored record misframed). -/
 def w7 : Env := { wEnv aergoSystem (str% "{\"Name\":\"v1voteBP\",\"Args\":[\"16Uiu2HAmPZE7gT1hF2bjpg1UVH65xyNUbBVRf3mBFBJpz3tgLGGt\"]}") 0 with
   argF := [{ b58 := some 39, pidOk := true }], candCap := 48, voteRec := [true], oldVoteOk := [false], voteAmt := [5] }
+/-- Round 3: a parameter vote by an account that staked 50 aer (possible once STAKINGMIN was voted down): the top
+tally is below 100 aer. -/
+def w9 : Env := { wEnv aergoSystem (str% "{\"Name\":\"v1voteDAO\",\"Args\":[\"BPCOUNT\",\"3\"]}") 0 with
+  staked := 50, stakingMin := 10, stakingTotal := 50, forkVersion := 3 }
+/-- Round 3: a parameter vote for a 39-character number while "3" holds the same tally. -/
+def w10 : Env := { wEnv aergoSystem (str% "{\"Name\":\"v1voteDAO\",\"Args\":[\"BPCOUNT\",\"000000000000000000000000000000000000005\"]}") 0 with
+  tally := [[], [{ cand := [51], amt := 10000000000000000000000 }]], stakingTotal := 20000000000000000000000 }
 
-/-- tests: the six repaired shapes are now *rejected* by admission (they panicked before the fix commits;
-`unfixed` below is the tree before them). -/
+/-- tests: the six shapes repaired in round 1 are *rejected* by admission. -/
 example : poolAdmit pinned w1 = .reject .args ∧ poolAdmit pinned w2 = .reject .args ∧ poolAdmit pinned w3 = .reject .args
     ∧ poolAdmit pinned w4 = .reject .args ∧ poolAdmit pinned w5 = .reject .args ∧ poolAdmit pinned w8 = .reject .args := by
   decide +kernel
 
-/-- The tree before the six fix commits, for the record. -/
-def unfixed : List Site := [.tNameUpdTo, .tNameOwner0, .vDaoVal, .eAdmin0, .eCheckArgs0, .rAddSlice, .gAdmins, .rSubNil]
+/-- The tree before the eight repairs, for the record. -/
+def unfixed : List Site := [.tNameUpdTo, .tNameOwner0, .vDaoVal, .eAdmin0, .eCheckArgs0, .rAddSlice, .gAdmins, .rSubNil,
+  .rThreshDiv, .tLessSlice]
 
 /-- tests: what the same inputs did before the fixes (w8 was admitted and executed: it wrote a 3-byte admin). -/
 example : poolAdmit unfixed w1 = .panic .tNameUpdTo ∧ poolAdmit unfixed w2 = .panic .tNameOwner0
@@ -192,6 +328,16 @@ example : poolAdmit unfixed w1 = .panic .tNameUpdTo ∧ poolAdmit unfixed w2 = .
     ∧ poolAdmit unfixed w4 = .panic .eAdmin0 ∧ poolAdmit unfixed w5 = .panic .eCheckArgs0
     ∧ (poolAdmit unfixed w8 = .ok () ∧ execute unfixed w8 = .ok ()) := by
   decide +kernel
+
+/-- tests (round 3): `w9` and `w10` are admitted; before f9db0000 / 3f9132cd their execution panicked (for `w10`:
+in the iteration order [39-character key, "3"], one of the orders Go's map iteration produces), now it does not. -/
+example : poolAdmit pinned w9 = .ok () ∧ execute unfixed w9 = .panic .rThreshDiv ∧ execute pinned w9 = .ok () := by
+  decide +kernel
+example : poolAdmit pinned w10 = .ok () ∧ execute pinned w10 = .ok () := by decide +kernel
+example : voteLess unfixed ⟨List.replicate 38 48 ++ [53], 7⟩ ⟨[51], 7⟩ = .panic .tLessSlice
+    ∧ voteLess pinned ⟨List.replicate 38 48 ++ [53], 7⟩ ⟨[51], 7⟩ = .ok true
+    ∧ voteLess pinned ⟨[51], 7⟩ ⟨List.replicate 38 48 ++ [53], 7⟩ = .ok false := by decide +kernel
+example : sortDesc unfixed [⟨[51], 7⟩, ⟨List.replicate 38 48 ++ [53], 7⟩] = .panic .tLessSlice := by decide +kernel
 
 /-- test (known finding C14-addVote-voteBP-candidate-length): a BP vote for a 22-byte peer id is admitted
 and panics in AddVote. -/
@@ -202,9 +348,22 @@ example : poolAdmit pinned w7 = .ok () ∧ execute pinned w7 = .panic .rSubNil :
 def wUnreadable : Env :=
   { wEnv aergoEnterprise (str% "{\"Name\":\"enableConf\",\"Args\":[\"p2pwhite\",true]}") 0 with adminsReadable := false }
 
-/-- test: the admin-list hypothesis of `validate_total` is needed — in a state whose admin list cannot be
-read back (unreachable since fix 2586c6fa) every enterprise transaction panics in getAdmins. -/
+/-- test: the admin-list hypothesis of `validate_total` is needed. -/
 example : poolAdmit pinned wUnreadable = .panic .gAdmins := by
+  decide +kernel
+
+/-- A plain transfer with the fee enabled. -/
+def wXfer (gp : Int) : Env := { wEnv (List.replicate 33 3) [] 5 with
+  tx := { wTx (List.replicate 33 3) [] 5 with type := 4 }, zeroFee := false, gasPrice := gp }
+/-- A fee-delegation call when no chain service is registered at the hub. -/
+def wFd : Env := { wEnv (List.replicate 33 3) (str% "{}") 0 with
+  tx := { wTx (List.replicate 33 3) (str% "{}") 0 with type := 3 }, rcptBalance := 1000000000000000000000, fdReply := .untyped }
+
+/-- tests: the gas-price and typed-reply hypotheses of `validate_total` are needed (a zero gas price — which no
+admitted vote can produce — would make admission of every paid transaction divide by zero). -/
+example : poolAdmit pinned (wXfer 0) = .panic .fCalcGas ∧ poolAdmit pinned (wXfer 50000000000) = .ok ()
+    ∧ poolAdmit pinned (wXfer (-5)) = .ok () ∧ execute pinned (wXfer 50000000000) = .ok ()
+    ∧ poolAdmit pinned wFd = .panic .pFdRsp ∧ poolAdmit pinned { wFd with fdReply := .refused } = .reject .fd := by
   decide +kernel
 
 /-- The second clause is false on the current tree: `w6` (a healthy state) is admitted and its
@@ -223,9 +382,10 @@ example : poolAdmit [] w6 = .reject .payload := by decide +kernel
 def wOk : Env := { wEnv aergoEnterprise (str% "{\"Name\":\"enableConf\",\"Args\":[\"rpcpermissions\",true]}") 0 with
   admins := [List.replicate 33 2], adminsEnc := [str% "AmX"], senderInAdmins := true,
   confKey := some { on := false, values := [str% "dGVzdA==:RW", str% "Y2VydA==:R"] },
-  voteRec := [true, false, false, false, false], oldVoteOk := [true, true, true, true, true], voteAmt := [7, 0, 0, 0, 0] }
+  voteRec := [true, true, false, false, false], oldVoteOk := [true, true, true, true, true], voteAmt := [7, 7, 0, 0, 0],
+  tally := [[], [{ cand := [51], amt := 7, inOld := true }]] }
 
-/-- `StateOk` is satisfiable on a state with admins, stored permissions and an old vote. -/
+/-- `StateOk` is satisfiable on a state with admins, stored permissions, an old BP vote and an old parameter vote. -/
 example : StateOk wOk where
   admins := rfl
   votes := by
@@ -233,6 +393,13 @@ example : StateOk wOk where
     match i with
     | 0 | 1 | 2 | 3 | 4 => rfl
     | _ + 5 => rfl
+  daoVotes := by
+    intro i hi hv
+    match i with
+    | 0 => exact absurd rfl hi
+    | 1 => decide
+    | 2 | 3 | 4 => simp [wOk, wEnv] at hv
+    | _ + 5 => simp [wOk, wEnv] at hv
   rpc := by
     intro ci a0 c _ _ _ hc v hv
     have : c = { on := false, values := [str% "dGVzdA==:RW", str% "Y2VydA==:R"] } := by
@@ -247,15 +414,19 @@ example : StateOk wOk where
       rfl
     rw [this] at hci; cases hci
     decide
+  gas := by unfold GasPriceOk; decide
+  fd := by unfold FdReplyOk; decide
 
 /-- … and there the model accepts and executes the transaction (the theorems are not about an empty set). -/
 example : poolAdmit pinned wOk = .ok () ∧ execute pinned wOk = .ok () ∧ poolAdmit [] wOk = .ok () := by decide +kernel
 
 /-- The healthy state of the witnesses satisfies the hypotheses of the partial theorems too. -/
-example : RpcOk w3 ∧ OldVotesOk w3 := by
-  refine ⟨?_, ?_⟩
+example : RpcOk w3 ∧ OldVotesOk w3 ∧ OldDaoVotesOk w3 ∧ GasPriceOk w3 ∧ FdReplyOk w3 := by
+  refine ⟨?_, ?_, ?_, by unfold GasPriceOk; decide, by unfold FdReplyOk; decide⟩
   · intro ci a0 c _ _ _ hc; cases hc
   · intro i h
+    simp [w3, wEnv] at h
+  · intro i _ h
     simp [w3, wEnv] at h
 
 end Aergo.Props.C14
